@@ -226,6 +226,8 @@ def gen_value(rng, depth=3, hashable=False, allow=None, size=3):
         return ("dict", tuple((kk, sub()) for kk in keys))
     if k == "dd":
         keys = _dedupe([gen_leaf(rng, True, ("int", "str")) for _ in range(n)])
+        if rng.random() < 0.3:
+            keys = []  # empty: may be written `defaultdict(list)`
         return ("dd", (rng.choice(DD_FACTORIES), ("dict", tuple((kk, sub(False)) for kk in keys))))
     if k == "call":
         name = rng.choice(list(CALL_FIELDS)) if not hashable else rng.choice(["NT", "NT2"])
@@ -377,6 +379,8 @@ def layout(t, rng: random.Random, handwritten=0.2, multiline=None, comments=True
         return join("{", [sub(a) + _ws(rng) + ":" + _ws(rng) + sub(b) for a, b in p], "}")
     if k == "dd":
         fac, d = p
+        if not d[1] and rng.random() < 0.5:
+            return f"defaultdict({fac}{_ws(rng)})"  # the usual way to write an empty one
         return f"defaultdict({fac},{_ws(rng)}{sub(d)})"
     if k == "call":
         name, fields = p
